@@ -19,14 +19,19 @@ def replay(path: str) -> int:
     case = json.loads(open(path).read())
     if case.get('storage_kind'):
         return c07_storage.replay(case)
+    if case.get('glue'):
+        from fjv.checks import native_glue
+        return native_glue.replay(case)
     return native_replay.replay(case)
 
 
 def run(report: Report, tier: str, only: Optional[str] = None) -> None:
     from fjv.llsx import c01_native, c07_storage
     report.outside += ['FLIPJUMP_FLAT_MAX_WORDS parsing by strtoull', 'more than 2 segments in the op-step harnesses',
-                       'the Python side of the bulk load (fjm_run._run_native building the add_segment / set_words calls from the Reader)']
+                       'Reader memories other than the listed address shapes in the python-side bulk load (fjm_run._run_native with the core stubbed)']
     report.assumptions += ['pyspec', 'the representation invariants stated in fjv/llsx/env.py (flat: gap words hold the fill constant; '
                            'pages: in-segment words hold the program word)', 'z3 5.1.0']
     c01_native.run(report, tier, only, prop='C07')
     c07_storage.run(report, tier, only, prop='C07')
+    from fjv.checks import native_glue
+    native_glue.run(report, tier, only, ['return'])
